@@ -106,15 +106,19 @@ pub fn check_num(c: &Num) -> Verdict {
     let s_want = root_rounded(&mag, c.d.scale as i128, 2, p, cfg.mode, false).value;
     ensure!(v, s_def.as_ref().map(|s| s.eq_val(&s_want)) == Some(true), "C20/sqrt", "sqrt() = {:?} but sqrt at ({}, {}) is {}", s_def.as_ref().map(|s| s.show()), p, cfg.mode.name(), s_want.show());
     ensure!(v, s_exp.as_ref().map(|s| s.eq_val(&s_want)) == Some(true), "C20/sqrt-explicit", "sqrt_with_context = {:?} expected {}", s_exp.as_ref().map(|s| s.show()), s_want.show());
+    // "behave exactly like their explicit counterparts": the same digits and scale, not only the same value
+    ensure!(v, s_def == s_exp, "C20/sqrt-repr", "sqrt() = {:?} but sqrt_with_context(configured) = {:?}", s_def.as_ref().map(|s| s.show()), s_exp.as_ref().map(|s| s.show()));
     // cbrt
     let c_def = dec_of(&x.cbrt());
     let c_exp = dec_of(&x.cbrt_with_context(&ctx));
     let c_want = root_rounded(&mag, c.d.scale as i128, 3, p, cfg.mode, c.d.is_neg()).value;
     ensure!(v, c_def.eq_val(&c_want), "C20/cbrt", "cbrt() = {} but cbrt at ({}, {}) is {}", c_def.show(), p, cfg.mode.name(), c_want.show());
     ensure!(v, c_exp.eq_val(&c_want), "C20/cbrt-explicit", "cbrt_with_context = {} expected {}", c_exp.show(), c_want.show());
+    ensure!(v, c_def == c_exp, "C20/cbrt-repr", "cbrt() = {} but cbrt_with_context(configured) = {}", c_def.show(), c_exp.show());
     // inverse
     let i_def = dec_of(&x.inverse());
     let i_exp = dec_of(&x.inverse_with_context(&ctx));
+    ensure!(v, i_def == i_exp, "C20/inverse-repr", "inverse() = {} but inverse_with_context(configured) = {}", i_def.show(), i_exp.show());
     ensure!(v, i_def.eq_val(&i_exp), "C20/inverse", "inverse() = {} but inverse_with_context(configured) = {}", i_def.show(), i_exp.show());
     if let Err((kind, detail, _)) = reciprocal_check(&m, &i_def, p) {
         ensure!(v, false, format!("C20/inverse-{}", kind), "inverse() at configured precision {}: {}", p, detail);
